@@ -473,6 +473,9 @@ impl JitCompiler {
     }
 
     fn emit_local_call(&mut self, mem: &mut JitMemory, target_pc: isize) {
+        // 4 pushes + the return address are 40 bytes: pad to 48 so that RSP stays 16-byte aligned
+        // at helper call sites inside the callee.
+        self.emit_alu64_imm8(mem, 0x83, 5, RSP, 8);
         self.emit_push(mem, map_register(6));
         self.emit_push(mem, map_register(7));
         self.emit_push(mem, map_register(8));
@@ -484,6 +487,7 @@ impl JitCompiler {
         self.emit_pop(mem, map_register(8));
         self.emit_pop(mem, map_register(7));
         self.emit_pop(mem, map_register(6));
+        self.emit_alu64_imm8(mem, 0x83, 0, RSP, 8);
     }
 
     fn jit_compile(
@@ -546,8 +550,9 @@ impl JitCompiler {
         // Copy stack pointer to R10
         self.emit_mov(mem, RSP, map_register(10));
 
-        // Allocate stack space
-        self.emit_alu64_imm32(mem, 0x81, 5, RSP, ebpf::STACK_SIZE as i32);
+        // Allocate stack space. The extra 8 bytes keep RSP 16-byte aligned at every helper call
+        // site (ABI requirement): entry (8 mod 16) + 5 pushes + 520 + the call below = 0 mod 16.
+        self.emit_alu64_imm32(mem, 0x81, 5, RSP, ebpf::STACK_SIZE as i32 + 8);
 
         // Use a call to set up a place where we can land after eBPF program's
         // final EXIT call. This will make JIT of BPF EXIT call easier in the
@@ -999,7 +1004,7 @@ impl JitCompiler {
         }
 
         // Deallocate stack space
-        self.emit_alu64_imm32(mem, 0x81, 0, RSP, ebpf::STACK_SIZE as i32);
+        self.emit_alu64_imm32(mem, 0x81, 0, RSP, ebpf::STACK_SIZE as i32 + 8);
 
         self.emit_pop(mem, R15);
         self.emit_pop(mem, R14);
